@@ -94,13 +94,21 @@ def body(chk: check.Check):
     # ------------------------------------------------------------------ negative controls
     small = next(r for r in cm.runs('quick') if r['name'] == 'cnl')
     small = dict(small, consts=dict(small['consts'], LabelSeqs=[cm.L3], AVecs=[(1, 2, 2)]))
+    two = dict(small, consts=dict(small['consts'], CnlMuPairs=[('2', '3/2')], TopMus=('1',)))
+    sess = next(r for r in cm.runs('quick') if r['name'] == 'session')
+    sess = dict(sess, kinds=['cnl'], consts=dict(sess['consts'], AlphaRows=[('1', '0'), ('1/2', '1/2')]))
+    mutants = cm.together({     # the TLC runs of the controls, at the same time
+        'no-availability': lambda: cm.run_mutant(small, 'no-availability', cm.MODEL_INVARIANTS),
+        'no-availability-emitted': lambda: tlc.run('MCChoice', cm.cfg([], mutation='no-availability'),
+                                                   extra_modules={'MCChoice': cm.module(small)}, workers=2, timeout=900, heap='2g'),
+        'names-matter': lambda: cm.run_mutant(two, 'names-matter', ['NamesIrrelevant']),
+        'remembers': lambda: cm.run_mutant(sess, 'remembers', ['Memoryless'])})
     # (1) the specification without the availability factor: TLC must report it
-    res = cm.run_mutant(small, 'no-availability', cm.MODEL_INVARIANTS)
+    res = mutants['no-availability']
     chk.control('ChoiceModels with Mutation = no-availability: TLC must report ZeroUnavail', res.violated == 'ZeroUnavail',
                 f'violated={res.violated}')
     # (2) ... and its expected values, replayed, must be refused by the driver
-    res = tlc.run('MCChoice', cm.cfg([], mutation='no-availability'), extra_modules={'MCChoice': cm.module(small)}, workers=2,
-                  timeout=900, heap='2g')
+    res = mutants['no-availability-emitted']
     mut = [g for g in cm.groups(res.emitted) if any(not all(r['av']) for r in g)]
     st, val = rt.forked(cm.c05_group, mut[len(mut) // 2]) if mut else ('none', None)
     chk.control('expected values of the no-availability mutant replayed into cnl / cnlmu: value clause',
@@ -130,22 +138,19 @@ def body(chk: check.Check):
                 and 'logit:loglogit:log-of-probability' in val['counts'])
 
     # (5) the names of the nest objects: a specification in which a nest takes the parameter of the nest it shares its name with ...
-    two = dict(small, consts=dict(small['consts'], CnlMuPairs=[('2', '3/2')], TopMus=('1',)))
-    res = cm.run_mutant(two, 'names-matter', ['NamesIrrelevant'])
+    res = mutants['names-matter']
     chk.control('ChoiceModels with Mutation = names-matter (nests keyed by name): TLC must report NamesIrrelevant',
                 res.violated == 'NamesIrrelevant', f'violated={res.violated}')
     # ... and a library that does the same (nested logit terms computed from nests keyed by their name)
     two_nests = next(g for g in cm.groups(emitted['nl']) if len(g[0]['labels']) == 4 and len(cm.nl_members(g[0])) == 2
-                     and len(cm.nl_members(g[0])[0][1]) == 2 and g[0]['mus'] == [[2, 1], [3, 2]] and g[0]['mu'] == [1, 1])
+                     and len(cm.nl_members(g[0])[0][1]) == 2 and g[0]['mus'] == [[3, 2], [2, 1]] and g[0]['mu'] == [1, 1])
     st, val = rt.forked(cm.c05_group_patched, two_nests, 'names', plan=chk.tier)
-    chk.control('nested logit terms computed from nests keyed by name: value-under-naming clause (same names, default name = given name)',
-                st == 'ok' and 'nl:nested:value-under-naming' in val['counts'] and 'nl:lognested:value-under-naming' in val['counts']
+    chk.control('nested logit terms computed from nests keyed by name: value-under-naming clause (two nests with the same name)',
+                st == 'ok' and 'nl:nested:value-under-naming' in val['counts']
                 and not any(k.endswith(':value') or k.endswith('after-modification') for k in val['counts']),
                 f'clauses={sorted(val["counts"]) if st == "ok" else val}')
     # (6) a second construction: a specification that keeps the nest sums of the first construction ...
-    sess = next(r for r in cm.runs('quick') if r['name'] == 'session')
-    sess = dict(sess, kinds=['cnl'], consts=dict(sess['consts'], AlphaRows=[('1', '0'), ('1/2', '1/2')]))
-    res = cm.run_mutant(sess, 'remembers', ['Memoryless'])
+    res = mutants['remembers']
     chk.control('ChoiceModels with Mutation = remembers (Steps = 2, nest sums of the first construction kept): TLC must report Memoryless',
                 res.violated == 'Memoryless', f'violated={res.violated}')
     # ... and a library that does the same (cross-nested terms from what these dictionary objects held the first time)
@@ -156,7 +161,7 @@ def body(chk: check.Check):
                 st == 'ok' and all(f'cnl:{f}:value-after-modification' in val['counts'] for f in ('cnl', 'logcnl', 'cnlmu'))
                 and not any(k.endswith(':value') or k.endswith('under-naming') for k in val['counts']),
                 f'clauses={sorted(val["counts"]) if st == "ok" else val}')
-    item = next(i for i in cm.session_items(emitted['session']) if i['steps'][0]['kind'] == 'cnl')
+    item = next(i for i in cm.session_items(emitted['session']) if i['steps'][0]['kind'] == 'cnl' and i['steps'][0]['mu'] == [1, 1])
     st, val = rt.forked(cm.session_group_patched, item, 'remembers')
     chk.control('the same library on the two-step behaviours of TLC: second-construction clause only',
                 st == 'ok' and 'cnl:cnl:two-step:second-construction' in val['counts']
